@@ -9,8 +9,8 @@ Open Scope nat_scope.
 
 (* ------------------------------------------------------------------ obligations on the generated bracket *)
 Lemma gen_cleanup_ok :
-  cleanup_steps = [CPathRemove true; CEndPatch "imp.load_source"; CEndPatch "importlib.util.spec_from_file_location";
-                   CEndPatch "importlib.util.module_from_spec"; CMetaRemove false; CModules]
+  cleanup_steps = [CPathRestore; CEndPatch "imp.load_source"; CEndPatch "importlib.util.spec_from_file_location";
+                   CEndPatch "importlib.util.module_from_spec"; CMetaRemove false; CModules; CCaptureUndo]
   /\ ctx_restored_in_finally = true /\ pep517_chdir_restored_in_finally = true.
 Proof. repeat split. Qed.
 
@@ -22,121 +22,84 @@ Lemma gen_patches_balanced :
 Proof. vm_compute. reflexivity. Qed.
 
 (* ------------------------------------------------------------------ list facts *)
-Lemma filter_notin sd P : mem sd P = false -> filter (fun x => negb (String.eqb x sd)) P = P.
-Proof.
-  induction P as [|x P IH]; [reflexivity|]. cbn [mem existsb filter]. intros H.
-  apply orb_false_elim in H as [H1 H2]. rewrite String.eqb_sym in H1. rewrite H1. cbn [negb].
-  f_equal. now apply IH.
-Qed.
-Lemma remove_first_head sd P : remove_first sd (sd :: P) = P.
-Proof. cbn. now rewrite String.eqb_refl. Qed.
-Lemma mem_head sd P : mem sd (sd :: P) = true.
-Proof. cbn. now rewrite String.eqb_refl. Qed.
 Lemma filter_owner id mods :
   Forall (fun e : string * nat => snd e = id) mods -> filter (fun e => negb (Nat.eqb (snd e) id)) mods = [].
 Proof. induction 1 as [|e mods He _ IH]; [reflexivity|]. cbn [filter]. rewrite He, Nat.eqb_refl. exact IH. Qed.
 
 (* ------------------------------------------------------------------ the script keeps the invariant *)
 Section SetupPy.
-  Variables (cwd sd : string) (P : list string) (id : nat) (helpers : list (string * string)) (PAT : list string).
-  Hypothesis HsdP : mem sd P = false.
+  Variables (cwd sd : string) (id : nat) (helpers : list (string * string)) (PAT : list string).
   Let hk := mkHook id sd helpers.
 
-  Definition Inv (fresh : bool) (s : pstate) : Prop :=
-    g_cwd s = cwd /\ g_meta s = [hk] /\ g_patched s = PAT
-    /\ Forall (fun e : string * nat => snd e = id) (g_modules s)
-    /\ (g_path s = sd :: P \/ (fresh = false /\ g_path s = P)).
+  (* whatever the script does to sys.path, everything else stays the analysis' own *)
+  Definition Inv (s : pstate) : Prop :=
+    g_cwd s = cwd /\ g_meta s = [hk] /\ g_patched s = PAT /\ g_capture s = true
+    /\ Forall (fun e : string * nat => snd e = id) (g_modules s).
 
-  Lemma Inv_weaken s : Inv true s -> Inv false s.
-  Proof. intros [A [B [C [D E]]]]. repeat split; try assumption. destruct E as [E | [E _]]; [now left | discriminate]. Qed.
-
-  Lemma run_ops_inv ops : forall fresh s seen s2 seen2 r,
-    neutral_from sd fresh ops = true -> Inv fresh s ->
-    run_ops ops s seen = (s2, seen2, r) -> Inv false s2.
+  Lemma run_ops_inv ops : forall s seen s2 seen2 r,
+    Inv s -> run_ops ops s seen = (s2, seen2, r) -> Inv s2.
   Proof.
-    induction ops as [|op ops IH]; intros fresh s seen s2 seen2 r Hn HI Hr.
-    - cbn in Hr. inversion Hr; subst. destruct fresh; [now apply Inv_weaken | exact HI].
+    induction ops as [|op ops IH]; intros s seen s2 seen2 r HI Hr.
+    - cbn in Hr. inversion Hr; subst. exact HI.
     - destruct HI as [A [B [C [D E]]]].
-      assert (Hfin : Inv false s).
-      { repeat split; try assumption. destruct E as [E | [_ E]]; [now left | right; now split]. }
-      destruct op as [n | p | | p | p | d]; cbn [run_ops neutral_from] in Hr, Hn.
-      + (* import *)
-        destruct (lookup_mod n (g_modules s)) as [o|].
-        * eapply IH; [exact Hn | | exact Hr]. repeat split; assumption.
+      destruct op as [n | p | | p | p | d]; cbn [run_ops] in Hr.
+      + destruct (lookup_mod n (g_modules s)) as [o|].
+        * eapply IH; [| exact Hr]. repeat split; assumption.
         * rewrite B in Hr. unfold first_hook in Hr. cbn [find] in Hr.
           destruct (hook_serves (g_path s) n hk).
-          -- eapply IH; [exact Hn | | exact Hr]. repeat split; cbn; try assumption. constructor; [reflexivity | exact D].
-          -- inversion Hr; subst. exact Hfin.
-      + discriminate.
-      + (* pop(0) *)
-        apply andb_prop in Hn as [Hf Hn]. subst fresh.
-        destruct E as [E | [E _]]; [|discriminate]. rewrite E in Hr.
-        eapply IH; [exact Hn | | exact Hr]. repeat split; cbn; try assumption. right. now split.
-      + (* drop *)
-        apply andb_prop in Hn as [Hp Hn]. apply String.eqb_eq in Hp. subst p.
-        eapply IH; [exact Hn | | exact Hr]. repeat split; cbn; try assumption. right. split; [reflexivity|].
-        destruct E as [E | [_ E]]; rewrite E.
-        * cbn [filter]. rewrite String.eqb_refl. cbn [negb]. now apply filter_notin.
-        * now apply filter_notin.
-      + (* remove *)
-        apply andb_prop in Hn as [Hp Hn]. apply String.eqb_eq in Hp. subst p.
-        destruct E as [E | [_ E]]; rewrite E in Hr.
-        * rewrite mem_head, remove_first_head in Hr.
-          eapply IH; [exact Hn | | exact Hr]. repeat split; cbn; try assumption. right. now split.
-        * rewrite HsdP in Hr. inversion Hr; subst. exact Hfin.
-      + (* chdir *)
-        eapply IH; [exact Hn | | exact Hr]. repeat split; assumption.
+          -- eapply IH; [| exact Hr]. repeat split; cbn; try assumption. constructor; [reflexivity | exact E].
+          -- inversion Hr; subst. repeat split; assumption.
+      + eapply IH; [| exact Hr]. repeat split; assumption.
+      + destruct (g_path s); [inversion Hr; subst; repeat split; assumption|].
+        eapply IH; [| exact Hr]. repeat split; assumption.
+      + eapply IH; [| exact Hr]. repeat split; assumption.
+      + destruct (mem p (g_path s)); [|inversion Hr; subst; repeat split; assumption].
+        eapply IH; [| exact Hr]. repeat split; assumption.
+      + eapply IH; [| exact Hr]. repeat split; assumption.
   Qed.
 End SetupPy.
 
 (* ------------------------------------------------------------------ the frame theorem *)
-Theorem frame_partial st p :
-  quiescent st = true -> neutral st p = true -> snd (analyse st p) = st.
+(* for EVERY project - whatever its script does (sys.path surgery and insertions included), however it
+   ends, whether its PEP 517 hook raises - one analysis gives the state back *)
+Theorem frame st p : quiescent st = true -> snd (analyse st p) = st.
 Proof.
-  destruct st as [cwd P meta mods pat]. unfold quiescent. cbn [g_meta g_modules g_patched].
+  destruct st as [cwd P meta mods pat cap]. unfold quiescent. cbn [g_meta g_modules g_patched].
   destruct meta; [|discriminate]. destruct mods; [|discriminate]. destruct pat; [|discriminate]. intros _.
-  unfold neutral, analyse. destruct (pj_kind p) as [|raises]; cbn [g_cwd g_path g_meta g_modules g_patched].
-  - intros Hn. apply andb_prop in Hn as [Hn HP]. apply negb_true_iff in HP.
-    destruct (run_ops (pj_ops p) _ []) as [[s2 seen] raised] eqn:R.
-    assert (HI : Inv cwd (pj_setupdir p) P (pj_id p) (pj_helpers p) (begin_patched ++ ctx_patched ++ [])%list false s2).
-    { eapply (run_ops_inv cwd (pj_setupdir p) P (pj_id p) (pj_helpers p) _ HP (pj_ops p) true); [exact Hn | | exact R].
+  unfold analyse. destruct (pj_kind p) as [|raises]; cbn [g_cwd g_path g_meta g_modules g_patched g_capture].
+  - destruct (run_ops (pj_ops p) _ []) as [[s2 seen] raised] eqn:R.
+    assert (HI : Inv cwd (pj_setupdir p) (pj_id p) (pj_helpers p) (begin_patched ++ ctx_patched ++ [])%list s2).
+    { eapply (run_ops_inv cwd (pj_setupdir p) (pj_id p) (pj_helpers p) _ (pj_ops p)); [| exact R].
       repeat split; cbn; auto. }
     destruct HI as [A [B [C [D E]]]].
-    destruct s2 as [cwd2 path2 meta2 mods2 pat2]. cbn in A, B, C, D, E. subst cwd2 meta2 pat2.
-    assert (Hpath : (if mem (pj_setupdir p) path2 then remove_first (pj_setupdir p) path2 else path2) = P).
-    { destruct E as [E | [_ E]]; subst path2; [now rewrite mem_head, remove_first_head | now rewrite HP]. }
-    unfold cleanup_steps. cbn [run_cleanup cleanup_step g_cwd g_path g_meta g_modules g_patched].
-    destruct (mem (pj_setupdir p) path2) eqn:M;
-      cbn [run_cleanup cleanup_step g_cwd g_path g_meta g_modules g_patched remove_hook h_owner];
-      rewrite Nat.eqb_refl; cbn [snd g_cwd g_path g_meta g_modules g_patched];
-      rewrite (filter_owner _ _ D); rewrite Hpath;
-      change ctx_restored_in_finally with true; cbn [orb g_cwd g_path g_meta g_modules g_patched];
-      f_equal; vm_compute; reflexivity.
-  - intros _. change pep517_chdir_restored_in_finally with true. reflexivity.
+    destruct s2 as [cwd2 path2 meta2 mods2 pat2 cap2]. cbn in A, B, C, D, E. subst cwd2 meta2 pat2 cap2.
+    unfold cleanup_steps.
+    cbn [run_cleanup cleanup_step g_cwd g_path g_meta g_modules g_patched g_capture remove_hook h_owner].
+    rewrite Nat.eqb_refl. cbn [snd g_cwd g_path g_meta g_modules g_patched g_capture].
+    rewrite (filter_owner _ _ E).
+    change ctx_restored_in_finally with true. cbn [orb g_cwd g_path g_meta g_modules g_patched g_capture].
+    destruct cap; cbn [negb]; f_equal; vm_compute; reflexivity.
+  - change pep517_chdir_restored_in_finally with true. reflexivity.
 Qed.
-
-(* the unguarded statement (any script) is false: see insert_leak_refuted *)
-Definition frame_full_statement : Prop := forall st p, quiescent st = true -> snd (analyse st p) = st.
 
 (* a failing analysis is a failure for that project only: the state is untouched whatever the ending *)
 Corollary failure_is_local st p :
-  quiescent st = true -> neutral st p = true -> o_failed (fst (analyse st p)) = true -> snd (analyse st p) = st.
-Proof. intros Q N _. now apply frame_partial. Qed.
+  quiescent st = true -> o_failed (fst (analyse st p)) = true -> snd (analyse st p) = st.
+Proof. intros Q _. now apply frame. Qed.
 
 (* any sequence: every project gets the result it gets alone, and the state is unchanged at the end *)
 Theorem sequence_independent st ps :
-  quiescent st = true -> forallb (neutral st) ps = true ->
+  quiescent st = true ->
   run_seq st ps = (map (fun p => fst (analyse st p)) ps, st).
 Proof.
-  intros Q. induction ps as [|p ps IH]; [reflexivity|]. cbn [forallb run_seq map]. intros H.
-  apply andb_prop in H as [Hp Hps].
-  pose proof (frame_partial st p Q Hp) as F.
+  intros Q. induction ps as [|p ps IH]; [reflexivity|]. cbn [run_seq map].
+  pose proof (frame st p Q) as F.
   destruct (analyse st p) as [o st'] eqn:A. cbn [snd] in F. subst st'.
-  rewrite (IH Hps). reflexivity.
+  rewrite IH. reflexivity.
 Qed.
 
-(* ------------------------------------------------------------------ examples and the refutation *)
-Definition st0 : pstate := mkP "/work" ["/venv/lib/site-packages"] [] [] [].
+(* ------------------------------------------------------------------ examples *)
+Definition st0 : pstate := mkP "/work" ["/venv/lib/site-packages"] [] [] [] false.
 
 (* alpha: imports its helper, then pops the setup dir off sys.path itself (micropython-lib idiom) *)
 Definition alpha : project :=
@@ -148,16 +111,7 @@ Definition broken : project :=
   mkProj 3 (KPep517 true) "broken" "/work/broken" "" [] [] EReturn.
 Definition raising : project :=
   mkProj 4 KSetupPy "r" "/work/r" "/r/" [("_about", "/r/")] [OpImport "_about"; OpChdir "pkg"] ERaise.
-
-Example frame_nontrivial :
-  forallb (neutral st0) [alpha; beta; broken; raising; beta] = true
-  /\ map o_seen (fst (run_seq st0 [alpha; broken; raising; beta]))
-     = [[("_about", 1)]; []; [("_about", 4)]; [("_about", 2)]]
-  /\ o_resolved (fst (analyse st0 beta)) = "/work/beta".
-Proof. repeat split; vm_compute; reflexivity. Qed.
-
-(* a script that ADDS a sys.path entry: nobody takes it off again.  A later project whose fake
-   root is the same (same directory / archive name) then finds a helper it cannot find alone *)
+(* a script that ADDS a sys.path entry, and a later project with the same fake root that relies on it *)
 Definition ins_a : project :=
   mkProj 5 KSetupPy "a/i-1.0" "/work/a/i-1.0" "/i-1.0/" [("hh", "/i-1.0/src")]
          [OpPathInsert "/i-1.0/src"; OpImport "hh"] EReturn.
@@ -165,15 +119,13 @@ Definition ins_b : project :=
   mkProj 6 KSetupPy "b/i-1.0" "/work/b/i-1.0" "/i-1.0/" [("hh", "/i-1.0/src")]
          [OpImport "hh"] EReturn.
 
-Lemma insert_leak_refuted :
-  exists st a b,
-    quiescent st = true
-    /\ snd (analyse st a) <> st
-    /\ g_path (snd (analyse st a)) = "/i-1.0/src" :: g_path st
-    /\ o_failed (fst (analyse st b)) = true                          (* alone: ImportError *)
-    /\ map o_failed (fst (run_seq st [a; b])) = [false; false]        (* after a: served from the leaked entry *)
-    /\ map o_seen (fst (run_seq st [a; b])) = [[("hh", 5)]; [("hh", 6)]].
-Proof.
-  exists st0, ins_a, ins_b. repeat split; try (vm_compute; reflexivity).
-  vm_compute. intros H. discriminate H.
-Qed.
+Example frame_nontrivial :
+  quiescent st0 = true
+  /\ map o_seen (fst (run_seq st0 [alpha; broken; raising; beta]))
+     = [[("_about", 1)]; []; [("_about", 4)]; [("_about", 2)]]
+  /\ o_resolved (fst (analyse st0 beta)) = "/work/beta"
+  (* the former leak (finding C12-syspath-insert-leak, fixed by 6eecba5): b fails alone AND after a *)
+  /\ map o_failed (fst (run_seq st0 [ins_a; ins_b])) = [false; true]
+  /\ o_failed (fst (analyse st0 ins_b)) = true
+  /\ snd (run_seq st0 [ins_a; ins_b]) = st0.
+Proof. repeat split; vm_compute; reflexivity. Qed.
